@@ -341,12 +341,13 @@ theorem SSim.consName {s₁ s₂ : St} (h : SSim P X s₁ s₂) (nmv : Str) {i :
   · rw [e2]; exact h.riDG
   · rw [e2]; exact h.rl
   · rw [e2]; exact h.rk
-  · intro x hx
+  · rw [e2, f2]; exact h.rk2
+  · intro hall x hx
     rw [e3, f3, lookupIn_cons, lookupIn_cons]
     simp only []
     by_cases hid : nmv = x
     · simp [hid]
-    · simp only [hid, if_false]; exact h.nm x hx
+    · simp only [hid, if_false]; exact h.nm hall x hx
   · intro p hp
     rw [e3] at hp
     simp only [List.mem_cons] at hp
@@ -427,7 +428,8 @@ theorem newRow_rel (ok : P.Ok) {s₁ s₂ : St} (h : Sim P X s₁ s₂) (r : Row
 
 /-- an action row -/
 theorem actionRow_rel (ok : P.Ok) {s₁ s₂ : St} (h : Sim P X s₁ s₂) (r : Row)
-    (hgiv : P.ρ r.nodeUuid = r.nodeUuid) (hpre : EdgesPre P X s₁ r.edges) :
+    (hgiv : P.ρ r.nodeUuid = r.nodeUuid) (hpre : EdgesPre P X s₁ r.edges)
+    (hnmk : X.nmAll = true ∨ (r.nodeUuid = [] ∧ r.nodeName = [])) :
     rwp (actionRow r) (actionRow r) s₁ s₂ (fun _ t₁ _ t₂ =>
       Sim P X t₁ t₂ ∧ t₁.stack = s₁.stack ∧ Eff P s₁ t₁ ∧
       (r.nodeUuid = [] → r.nodeName = [] → MR P t₁)) := by
@@ -448,7 +450,11 @@ theorem actionRow_rel (ok : P.Ok) {s₁ s₂ : St} (h : Sim P X s₁ s₂) (r : 
     exact newc
   · simp only [hne, Bool.false_eq_true, if_false]
     have hne' : nodeName ≠ [] := by simpa using hne
-    have hnm := h.2.nm nodeName hne'
+    have hall : X.nmAll = true := by
+      rcases hnmk with hh | hh
+      · exact hh
+      · exfalso; apply hne'; rw [← hnn]; simp [hh.1, hh.2]
+    have hnm := h.2.nm hall nodeName hne'
     unfold lookupIn at hnm
     rw [hnm]
     cases hf : (s₁.names.find? (·.1 = nodeName)) with
